@@ -24,7 +24,7 @@ func init() {
 		method := methodOf(c.P("method", "plain"))
 		singleplex := c.P("singleplex", "0") == "1"
 		sc := &vrt.Scenario{
-			Opt:      vrt.Options{RandInt: chooseConnOpt(), Delay: c.P("delay", "0") == "1"},
+			Opt:      vrt.Options{RandInt: chooseConnDraws(c.P("draws", "prf")), Delay: c.P("delay", "0") == "1"},
 			Classify: deadlockIs("blocked-calls-return: a Read/Write/Close/Accept never returned"),
 			Main: func() {
 				r := newMuxRig(rigCfg{conns: nconn, method: method, unit: 256, singleplex: singleplex, wlimit: c.PI("wlimit", 0)})
@@ -253,6 +253,9 @@ func init() {
 			{Scenario: "mux.close", Params: vx.P("data", "300", "mode", "local"), Bound: b(1, 2), Weight: 6},
 			{Scenario: "mux.close", Params: vx.P("data", "5", "singleplex", "1", "conns", "1"), Bound: b(2, 3), Weight: 4},
 			{Scenario: "mux.close", Params: vx.P("data", "300", "method", "aes-128-gcm"), Bound: b(1, 2), Weight: 5},
+			{Scenario: "mux.close", Params: vx.P("data", "5", "draws", "max"), Bound: b(1, 2), Weight: 4},
+			{Scenario: "mux.close", Params: vx.P("data", "5", "draws", "min", "method", "aes-256-gcm"), Bound: b(1, 2), Weight: 4},
+			{Scenario: "mux.close", Params: vx.P("data", "5", "sdata", "5", "mode", "simul", "draws", "max", "conns", "1"), Bound: b(1, 2), Weight: 5},
 			{Scenario: "mux.close", Params: vx.P("data", "5", "singleplex", "1", "conns", "1", "lateaccept", "1"), Bound: b(2, 3), Weight: 5},
 			{Scenario: "mux.close", Params: vx.P("data", "300", "conns", "2", "lateaccept", "1", "delay", "1"), Bound: b(2, 3), Weight: 6},
 			{Scenario: "e2e.route", Params: vx.P("numconn", "0", "apps", "1", "sizes", "5", "forget", "1"), Bound: b(2, 2), Weight: 9},
